@@ -272,6 +272,25 @@ func genModelCase(t *rapid.T, o modelOpts) (cs *modelCase, why string) {
 	if len(points) == 0 {
 		nInst, nMut = 0, 0
 	}
+	// insertion point closest after the start of the mined code
+	anchorIdx := 0
+	var atIdx []int
+	{
+		var pos token.Pos
+		if root.Node != nil {
+			pos = root.Node.Pos()
+		} else if len(root.Stmts) > 0 {
+			pos = root.Stmts[0].Pos()
+		}
+		if pos.IsValid() {
+			off := h.fset.Position(pos).Offset
+			for i, p := range points {
+				if p <= off {
+					anchorIdx = i
+				}
+			}
+		}
+	}
 	for i := 0; i < nInst+nMut; i++ {
 		label := fmt.Sprintf("pl%d", i)
 		inst := gen.Instantiate(t, m, label)
@@ -290,7 +309,25 @@ func genModelCase(t *rapid.T, o modelOpts) (cs *modelCase, why string) {
 		if !plantParses(kind, txt) {
 			continue
 		}
-		at := points[rapid.IntRange(0, len(points)-1).Draw(t, label+"at")]
+		// Half of the plants are clustered: next to the code the pattern was
+		// mined from, or next to the previous plant (same or neighbouring
+		// block), so that several sites and near-misses meet in one list.
+		pi := rapid.IntRange(0, len(points)-1).Draw(t, label+"at")
+		if rapid.Bool().Draw(t, label+"cluster") {
+			anchor := anchorIdx
+			if len(atIdx) > 0 && rapid.Bool().Draw(t, label+"nearPrev") {
+				anchor = atIdx[len(atIdx)-1]
+			}
+			pi = anchor + rapid.IntRange(-1, 2).Draw(t, label+"off")
+			if pi < 0 {
+				pi = 0
+			}
+			if pi >= len(points) {
+				pi = len(points) - 1
+			}
+		}
+		atIdx = append(atIdx, pi)
+		at := points[pi]
 		ats = append(ats, at)
 		texts = append(texts, txt)
 		cs.Plants = append(cs.Plants, plantInfo{Tag: tag, Ctx: ctx, Text: txt})
@@ -514,8 +551,24 @@ func evalModel(cs *modelCase) *verdict {
 				break
 			}
 		}
+	case d.Cont > 0 && instanceRewrittenAt(res.Sites[d.Cont-1], d.ContGot):
+		// The block's instance was rewritten as expected, yet statements
+		// around it (what the implicit elisions stood for) changed.
+		v.Class = "around-instance-changed"
+		v.Props = []string{"C05", "C04"}
 	default:
-		if hasMarker(d.Got) || hasMarker(d.GotNode) {
+		// Is the difference part of a region that gopatch rewrote (it carries
+		// more of the plus side's marker than expected there)?
+		extraMarker := hasMarker(d.Got) && !hasMarker(d.Want)
+		for i := 0; i < len(d.GotChain) && i < len(d.WantChain) && !extraMarker; i++ {
+			if d.WantChain[i].TypeName() == "File" {
+				break
+			}
+			if ref.CountIdentPrefix(d.GotChain[i], gen.Marker) > ref.CountIdentPrefix(ref.Resolve(d.WantChain[i], d.GotChain[i], ref.Output), gen.Marker) {
+				extraMarker = true
+			}
+		}
+		if extraMarker {
 			v.Class = "nonsite-rewritten"
 			v.Props = []string{"C01"}
 			// Would the place be an instance if the metavariable rules were
@@ -637,4 +690,29 @@ func (mc *modelCheck) replay(t *testing.T) {
 	if v.Status == "discrepancy" && v.contradicts(mc.Prop) {
 		violate(t, mc.Prop, v.Class+":"+modelSig(&cs, v), v.Msg, &cs)
 	}
+}
+
+// instanceRewrittenAt reports whether the got-side container holds the
+// expected instantiated statements at the expected place.
+func instanceRewrittenAt(site ref.Site, got *ref.Tree) bool {
+	if got == nil || got.Kind != ref.KNode || site.Repl == nil {
+		return false
+	}
+	field := "List"
+	if got.Field(field) == nil {
+		field = "Body"
+	}
+	gl, wl := got.Field(field), site.Repl.Field(field)
+	if gl == nil || wl == nil || gl.Kind != ref.KList || wl.Kind != ref.KList {
+		return false
+	}
+	if site.InstLen == 0 || site.Start+site.InstLen > len(gl.Kids) || site.Start+site.InstLen > len(wl.Kids) {
+		return false
+	}
+	for i := site.Start; i < site.Start+site.InstLen; i++ {
+		if !ref.Equal(wl.Kids[i], gl.Kids[i], ref.Output) {
+			return false
+		}
+	}
+	return true
 }
